@@ -22,6 +22,7 @@ Fixpoint size (e : expr) : nat :=
   | EShort s a => S (size s + size a)
   | EBlock es => S (list_sum (map size es))
   | ECall f args => S (size f + list_sum (map size args))
+  | EVar l path => Nat.max 1 (N.to_nat l + length path)
   | _ => 1
   end%nat.
 Lemma size_pos e : (1 <= size e)%nat.
@@ -155,7 +156,7 @@ Definition body (e : expr) : text :=
   | ENum v sz => print_num v sz
   | EBool b => if b then kw_true else kw_false
   | EStr raw => raw
-  | EVar _ path => sepby [46] path
+  | EVar level path => print_var level path
   | EUn o a => unop_text o ++ pr 14 a
   | EBin o a b =>
     match o with
